@@ -7,6 +7,7 @@ V=/verif
 REPO=${SBDF_REPO:-/repo}
 VAR=${1:-asan}
 HASH=$(cat $REPO/src/*.c $REPO/src/*.h $REPO/include/*.h $V/harness/*.c | sha1sum | cut -c1-16)
+[ -n "$WRAP" ] && HASH="$HASH-$(echo $WRAP | sha1sum | cut -c1-6)"
 DIR=$V/.cache/harness/$VAR-$HASH
 if [ ! -x $DIR/harness ]; then
   mkdir -p $DIR
@@ -17,6 +18,7 @@ if [ ! -x $DIR/harness ]; then
     asan) SAN="-fsanitize=address,undefined -fno-sanitize-recover=all"; EXTRA="" ;;
     be)   SAN="-fsanitize=address,undefined -fno-sanitize-recover=all"; EXTRA="-D__sparc" ;;
     tsan) SAN="-fsanitize=thread"; EXTRA="" ;;
+    wrap) SAN="-fsanitize=address,undefined -fno-sanitize-recover=all"; EXTRA="" ;;
   esac
   # hooks guard (no hook commits exist; the define documents the convention)
   CF="-g -O1 -w -DSBDF_VERIF $SAN $EXTRA -I$REPO/include -I$REPO/src"
@@ -25,8 +27,15 @@ if [ ! -x $DIR/harness ]; then
   done
   SRC=$V/harness/harness.c
   [ "$VAR" = tsan ] && SRC=$V/harness/threads.c
+  if [ -n "$WRAP" ]; then
+    # C20 witness search: calls to the listed (forbidden) symbols end the process with status 97
+    { echo '#include <unistd.h>'; for w in $WRAP; do printf 'void __wrap_%s(void) { static const char m[] = "# FORBIDDEN CALL %s\\n"; (void)!write(1, m, sizeof m - 1); _exit(97); }\n' "$w" "$w"; done; } > $DIR/wrap.c
+    clang -g -O1 -w -c $DIR/wrap.c -o $DIR/wrap.o
+  fi
   clang $CF -c $SRC -o $DIR/main.o &
   wait
+  # forbidden symbols are redirected in the library's objects only (the harness itself may print)
+  for w in $WRAP; do for o in $DIR/*.o; do case $o in */main.o|*/wrap.o) ;; *) objcopy --redefine-sym $w=__wrap_$w $o ;; esac; done; done
   clang $SAN $DIR/*.o -o $DIR/harness -lpthread
   rm -f $DIR/*.o
 fi
